@@ -130,7 +130,7 @@ def dump_real(fl):
     n = max(0, min([n, len(fl.X_orig), len(fl.X), len(fl.Y_orig), len(fl.Y), len(fl.n_evals)] + ([len(S)] if S is not None else [])))
     for i in range(n):
         s2 = None
-        if fl.noise_flag and not math.isnan(S[i, 0]):
+        if fl.noise_flag and math.isfinite(S[i, 0]):
             s2 = Fraction(float(S[i, 0])) ** 2
         rows.append([fl.X_orig[i].tolist(), fl.X[i].tolist(), float(fl.Y_orig[i, 0]), float(fl.Y[i, 0]), s2,
                      int(fl.n_evals[i, 0])])
@@ -239,13 +239,13 @@ def xexpect(trace, he):
         elif res is None:
             r = xv(None)
         else:
-            fv = f"(XA {cq(res[0])})" if he else xv(res[0])
+            fv = f"(XA {cq(res[0])})" if (he and math.isfinite(res[0])) else xv(res[0])
             r = "(XL " + clist([fv, xv(res[1]), xv(res[2])]) + ")"
         items.append("(XL " + clist([r, xv([st["Xn"], st["cap"], st["fc"], st["cc"]])]) + ")")
     rows = []
     st = trace[-1][1]
     for (xo, x, yo, y, s2, n) in st["rows"]:
-        ycell = f"(XA {cq(y)})" if (he and n > 1) else xv(y)
+        ycell = f"(XA {cq(y)})" if (he and n > 1 and math.isfinite(y)) else xv(y)
         scell = xv(None) if s2 is None else f"(XA {cq(s2)})"
         rows.append("(XL " + clist([xv(xo), xv(x), xv(yo), ycell, scell, xv(n)]) + ")")
     return "(XL " + clist(["(XL " + clist(items) + ")", "(XL " + clist(rows) + ")"]) + ")"
@@ -322,6 +322,8 @@ def monitor(cfg, ops, trace):
                 return f"op {k}: row {i} internal point {x} != {r[0]} (call order broken)"
             if r[3] is not None and not _close(xo, r[3]):
                 return f"op {k}: row {i} is logged at original-space location {xo}, the observation was made at {r[3]} (internal point {x})"
+            if isinstance(y, float) and not math.isfinite(y):
+                return f"op {k}: row {i} (point {x}) holds the non-finite value {y}"
             if n != len(r[1]) + r[2]:
                 return f"op {k}: row {i} n_evals {n} != {len(r[1]) + r[2]}"
             if yo != r[1][0][0]:
